@@ -697,26 +697,54 @@ class _Rejected(Exception):
         self.err = err
 
 
+def _reject_result(shape, row, err):
+    return {shape: {'status': 'reject', 'evaluations': 1, 'row': row,
+                    'detail': {'formula': instantiate(shape, row), 'sheet': 'all', 'mode': 'translation', 'operands': [],
+                               'observed': f'{err.cls}: {err.msg[:160]}', 'expected': 'a value', 'emitted': None}}}
+
+
 def run_items(items, rounds=True):
     """like _run_rows, isolating formulas whose translation fails (one bad formula fails the whole workbook)"""
     try:
         return _run_rows(items, rounds)
     except _Rejected as e:
         if len(items) == 1:
-            shape, row = items[0]
-            return {shape: {'status': 'reject', 'evaluations': 1, 'row': row,
-                            'detail': {'formula': instantiate(shape, row), 'sheet': 'all', 'mode': 'translation',
-                                       'operands': [], 'observed': f'{e.err.cls}: {e.err.msg[:160]}',
-                                       'expected': 'a value', 'emitted': None}}}
+            return _reject_result(items[0][0], items[0][1], e.err)
         mid = len(items) // 2
         out = run_items(items[:mid], rounds)
         out.update(run_items(items[mid:], rounds))
         return out
 
 
+def _hint_rejected(formula, row):
+    """Cheap guess (library lexer + tree builder on the text alone) whether the translation of this formula will be
+    refused.  It only decides how formulas are grouped into workbooks: a formula guessed to be refused is confirmed
+    alone through the real Parser; a wrong guess costs time, never a verdict."""
+    try:
+        from excel2pycl import Cell
+        from excel2pycl.src.lexer import Lexer
+        from excel2pycl.src.ast_builder import AstBuilder
+        cell = Cell(0, FCOL, row - 1)
+        cell._handled_identifiers = True
+        AstBuilder.parse(Lexer.parse(formula, in_cell=cell), in_cell=cell)
+        return False
+    except Exception as e:                                            # noqa
+        return 'E2Pycl' in type(e).__name__
+
+
 def _batch_worker(args):
     shapes, first_row = args
-    return run_items([(s, first_row + i) for i, s in enumerate(shapes)])
+    items = [(s, first_row + i) for i, s in enumerate(shapes)]
+    alone = [it for it in items if _hint_rejected(instantiate(*it), it[1])]
+    if not alone:
+        return run_items(items)
+    out = run_items([it for it in items if it not in alone])
+    for shape, row in alone:
+        with lib.scratch() as d:                     # the real Parser on a workbook holding just this formula
+            p = lib.Pipe({'sheets': [{'title': SHEETS[0], 'cells': [[FCOL + 1, row, instantiate(shape, row)]]}]}, d, safety=False)
+            err = p.error
+        out.update(_reject_result(shape, row, err) if err is not None else run_items([(shape, row)]))
+    return out
 
 
 _POOL = None
@@ -726,6 +754,8 @@ def _pool():
     global _POOL
     if _POOL is None:
         import multiprocessing
+        import openpyxl                      # noqa: imported before the fork so that the workers inherit the modules
+        import excel2pycl                    # noqa
         _POOL = multiprocessing.get_context('fork').Pool(min(16, os.cpu_count() or 1))
     return _POOL
 
@@ -914,25 +944,38 @@ def check_comparison_ops(max_tokens, known):
 
 
 # ---------------------------------------------------------------------------------------------------- literals
-def _literal_worker(texts):
-    """value of =<literal> and of a formula using it, through the pipeline"""
+GRID_W = 20
+
+
+def _eval_grid(formulas):
+    """values of many formulas laid out 20 per row on one sheet ([[col, row, value]] extra cells allowed through
+    the pipeline); a formula whose translation fails is isolated by bisection and yields the Raised"""
     out = {}
-    items = list(texts)
 
     def go(chunk):
-        formulas = ['=' + t for t in chunk]
-        r = lib.eval_formulas(formulas)
-        if r['error'] is not None:
-            if len(chunk) == 1:
-                out[chunk[0]] = codec.dec(r['error'])
+        cells = [[i % GRID_W + 1, i // GRID_W + 1, f] for i, f in enumerate(chunk)]
+        from excel2pycl import Cell
+        with lib.scratch() as d:
+            p = lib.Pipe({'sheets': [{'title': 'S', 'cells': cells}]}, d, safety=False)
+            if p.error is None:
+                for i, f in enumerate(chunk):
+                    got = lib.call_catch(p.executor.get_cell, Cell(0, i % GRID_W, i // GRID_W))
+                    out[f] = got if isinstance(got, codec.Raised) else got.value
                 return
-            go(chunk[:len(chunk) // 2])
-            go(chunk[len(chunk) // 2:])
+            err = p.error
+        if len(chunk) == 1:
+            out[chunk[0]] = err
             return
-        for t, v in zip(chunk, r['values']):
-            out[t] = codec.dec(v)
-    go(items)
+        go(chunk[:len(chunk) // 2])
+        go(chunk[len(chunk) // 2:])
+    go(list(dict.fromkeys(formulas)))
     return out
+
+
+def _literal_worker(texts):
+    """value of =<text> for every text, through the pipeline"""
+    r = _eval_grid(['=' + t for t in texts])
+    return {t: r['=' + t] for t in texts}
 
 
 def _literal_expected(text):
@@ -953,7 +996,7 @@ def _literal_key(text, got):
         if re.search(r'E|e\+', text):
             return 'C01.literal.exponent_form_rejected'
         return 'C01.literal.rejected'
-    if '.' not in text and 'e' not in text.lower():
+    if isinstance(got, int) and not isinstance(got, bool) and abs(got) > 2 ** 53:
         return 'C01.literal.integer_beyond_2p53'
     if 'e' in text.lower():
         return 'C01.literal.exponent_value'
@@ -1061,8 +1104,8 @@ def check_blank():
     forms = ['B1+{x}', '{x}+B1', 'B1-{x}', '{x}-B1', 'B1*{x}', '{x}*B1', '{x}/B1', '-{x}', '+{x}', '{x}%', '-{x}+B1', '{x}%+B1',
              '({x})+B1', '{x}+{x}', '{x}*{x}+B1', 'B1-{x}-{x}', '{x}', '({x})', 'B1+{x}*3', '2*{x}-B1', '{x}-1', '1-{x}',
              'B1*(1-{x})', 'B1*(1+{x}%)']
-    blanks = {'inside': 'C2', 'edge': 'D3', 'beyond_col': 'AB1', 'beyond_row': 'A150', 'far': 'AAA1001',
-              'other_sheet': "'O p'!C7", 'other_sheet_beyond': 'Ops!Z99'}
+    blanks = {'inside': 'C2', 'row_gt_100': 'B120', 'beyond_col': 'AB1', 'beyond_row': 'A500', 'far': 'AAA1001',
+              'other_sheet_quoted': "'O p'!C7", 'other_sheet_plain': 'Ops!Z99'}
     fails, evals = {}, 0
     cells = [['A', 1, 4], ['B', 1, 7], ['D', 2, 1], ['A', 4, 'x']]
     flist = []
@@ -1128,6 +1171,7 @@ def check_blank():
 
 # ---------------------------------------------------------------------------------------------------- operand sources
 _SRC_NUM = ['2', '3.5', '0.25', '7', '10', '1.5', '12', '0.5']
+_FARCOLS = ['AB', 'AAA', 'XFD', 'BA']
 _SRC_TXT = ['"ab"', '"c"', '"abc"', '"b"', '"ca"', '"a"', '"bc"', '"d"']
 
 
@@ -1159,9 +1203,8 @@ def _source_worker(args):
         for j, v in enumerate(vals):
             s_cells.append([j + 1, row, codec.enc(v)])
             o_cells.append([j + 1, row + 100, codec.enc(v)])            # rows > 100 on the other sheet
-        lit_src = _kinded(want, salt, _SRC_TXT, _SRC_NUM)
-        lit_vals = [(True if x == 'TRUE' else False) if isinstance(x, bool) else x for x in lit_src]
-        it = iter(['TRUE' if x is True else 'FALSE' if x is False else x for x in lit_vals])
+        lit_src = ['TRUE' if x is True else 'FALSE' if x is False else x for x in _kinded(want, salt, _SRC_TXT, _SRC_NUM)]
+        it = iter(lit_src)
         f_lit = re.sub('@', lambda m: next(it), shape)
         styles = ['${c}${r}', '{c}${r}', '${c}{r}', '{c}{r}']
         it = iter(range(k))
@@ -1181,7 +1224,7 @@ def _source_worker(args):
         it = iter(fo)
         f_fop = re.sub('@', lambda m: next(it), shape)
         it = iter(range(k))
-        f_bey = re.sub('@', lambda m: (lambda j: f'{["AB", "AAA", "XFD", "BA"][j % 4]}{1000 + row + j}')(next(it)), shape)
+        f_bey = re.sub('@', lambda m: (lambda j: f'{_FARCOLS[j % 4]}{1000 + 10 * row + j}')(next(it)), shape)
         plan[shape] = {'vals': vals, 'k': k, 'want': want, 'salt': salt,
                        'literal': f_lit, 'absolute': f_abs, 'other_sheet': f_oth, 'formula_operand': f_fop, 'beyond': f_bey}
         for v in variants:
@@ -1199,12 +1242,6 @@ def _source_worker(args):
             if p.error is not None:
                 raise _Rejected(p.error)
             ex = p.executor
-            env = {}
-            for sh in spec_['sheets']:
-                for c, r, v in sh['cells']:
-                    if not (isinstance(v, str) and v.startswith('=')):
-                        env[(sh['title'], COLS[c - 1] if isinstance(c, int) and c <= 8 else c, r)] = codec.dec(v)
-
             def val(sheet, c, r):
                 got = lib.call_catch(ex.get_cell, Cell(sheet, c, r))
                 return got if isinstance(got, codec.Raised) else got.value
@@ -1252,7 +1289,7 @@ def _source_worker(args):
                 newvals[shape] = nv
                 for j, v in enumerate(nv):
                     ov.append(Cell('Ops', COLS[j], str(row), v))
-                    ov.append(Cell('S', ['AB', 'AAA', 'XFD', 'BA'][j % 4], str(1000 + row + j), v))
+                    ov.append(Cell('S', _FARCOLS[j % 4], str(1000 + 10 * row + j), v))
                     ov.append(Cell('O p', j, row + 100 - 1, v))
             ex.set_cells(ov)
             for shape in shapes_:
@@ -1377,25 +1414,44 @@ def check_sources(tier, known, seed):
 # =====================================================================================================================
 # 7. entry points
 # =====================================================================================================================
+class _FastTmp:
+    """lib.scratch() makes its directories with tempfile.mkdtemp(); a memory-backed base directory keeps the thousands
+    of small workbooks off the disk.  Only the base of the scratch directories changes, and only during run/replay."""
+
+    def __enter__(self):
+        import tempfile
+        self.old = tempfile.tempdir
+        if os.path.isdir('/dev/shm') and os.access('/dev/shm', os.W_OK):
+            tempfile.tempdir = '/dev/shm'
+
+    def __exit__(self, *a):
+        import tempfile
+        _close_pool()
+        tempfile.tempdir = self.old
+
+
 def run(tier='quick', seed=0):
     thorough = tier == 'thorough'
     checks = []
-    try:
-        c, results = check_grouping_exhaustive(9 if thorough else 7)
+    with _FastTmp():
+        c, results = check_grouping_exhaustive(9 if thorough else 6)
         checks.append(c)
         c, results = check_comparison_ops(6 if thorough else 5, results)
         checks.append(c)
-        c, results = check_grouping_sampled(12000 if thorough else 500, 10 if thorough else 8, 14, seed, results)
+        c, results = check_grouping_sampled(12000 if thorough else 400, 10 if thorough else 7, 14, seed, results)
         checks.append(c)
         checks.append(check_literals(tier, seed))
         checks.append(check_blank())
         checks.append(check_sources(tier, results, seed))
-    finally:
-        _close_pool()
     return {'checks': checks}
 
 
 def replay(payload):
+    with _FastTmp():
+        return _replay(payload)
+
+
+def _replay(payload):
     k = payload.get('kind')
     try:
         if k == 'shape':
@@ -1430,5 +1486,5 @@ def replay(payload):
             return {'fails': bool(f1), 'text': '; '.join(v[0][1] for v in f1.values())[:600] or
                     f'{e1 + e2} source-variant evaluations of {payload["shape"]} agree'}
     finally:
-        _close_pool()
+        pass
     return {'fails': False, 'text': 'nothing to replay'}
